@@ -41,7 +41,9 @@ use vcommon::*;
 use c01_model::*;
 use c01_trees::*;
 
-const KEYS: [&str; 6] = ["a", "b", "c", "k1", "lvl", "é"];
+const KEYS: [&str; 8] = ["a", "b", "c", "k1", "lvl", "é", "n", "f"];
+/// values for `lvl`: documented level spellings and texts that are no level at all
+const LVL_STRS: [&str; 9] = ["error", "warn", "info", "debug", "verbose", "WRN", "x", "", "Err1"];
 const MDLS: [&str; 5] = ["m", "m::a", "m::b", "app::é", "other"];
 const STRS: [&str; 4] = ["x", "y", "warn", ""];
 const TEXTS: [&str; 4] = ["evt ", "x=", " and ", "é "];
@@ -67,6 +69,27 @@ fn gen_val(g: &mut Rng) -> MVal {
     }
 }
 
+/// A value for `key`: the same key carries values of different types / castability in an
+/// event's own properties and in the ambient ones (a `lvl` that is no level, an `n` that is text).
+fn gen_val_for(g: &mut Rng, key: &str) -> MVal {
+    match key {
+        "lvl" if g.chance(7, 10) => MVal::S(g.pick(&LVL_STRS).to_string()),
+        "n" => match g.below(10) {
+            0..=3 => MVal::I(g.irange(-2, 5)),
+            4..=5 => MVal::S("text".to_string()),
+            6 => MVal::S("5".to_string()),
+            _ => gen_val(g),
+        },
+        // floats only ever live under `f`, and no integer does (int <-> float casts are C19's)
+        "f" => match g.below(4) {
+            0..=1 => MVal::F(g.irange(-2, 3) as i32),
+            2 => MVal::S("text".to_string()),
+            _ => MVal::B(g.bool()),
+        },
+        _ => gen_val(g),
+    }
+}
+
 fn gen_key(g: &mut Rng) -> String {
     g.pick(&KEYS).to_string()
 }
@@ -79,7 +102,8 @@ fn gen_props(g: &mut Rng, max: usize, unique: bool) -> MProps {
         if unique && out.iter().any(|(pk, _)| *pk == k) {
             continue;
         }
-        out.push((k, gen_val(g)));
+        let v = gen_val_for(g, &k);
+        out.push((k, v));
     }
     out
 }
@@ -118,6 +142,44 @@ fn gen_event(g: &mut Rng) -> MEvent {
     MEvent { mdl: g.pick(&MDLS).to_string(), tpl, ext: gen_ext(g), props: gen_props(g, 6, false) }
 }
 
+/// Leaves that read properties through typed lookups (`pull::<T>`) and the stock level filters.
+fn gen_typed_leaf(g: &mut Rng) -> FLeaf {
+    match g.below(12) {
+        0..=1 => return FLeaf::MinLevel(g.usize(4), if g.chance(1, 3) { Some(g.usize(4)) } else { None }),
+        2 => {
+            let n = 1 + g.usize(3);
+            let regs = (0..n).map(|_| (g.pick(&["m", "m::a", "app", "other", "m::b::c"]).to_string(), g.usize(4))).collect();
+            return FLeaf::PathMap(regs, if g.bool() { Some(g.usize(4)) } else { None });
+        }
+        _ => {}
+    }
+    let (key, ty) = match g.below(12) {
+        0..=2 => ("lvl", Ty::Level),
+        3 => ("lvl", if g.bool() { Ty::Str } else { Ty::String }),
+        4..=5 => ("n", Ty::I64),
+        6 => ("n", if g.bool() { Ty::U64 } else { Ty::Str }),
+        7..=8 => ("f", Ty::F64),
+        9 => (*g.pick(&["a", "b", "c"]), Ty::I64),
+        10 => (*g.pick(&["a", "b", "c"]), Ty::Bool),
+        _ => (*g.pick(&["a", "b", "k1"]), Ty::String),
+    };
+    // what the typed read must yield for the leaf to accept: a value of that type from the key's
+    // pool, or nothing at all
+    let want = if g.chance(1, 4) {
+        None
+    } else {
+        let mut found = None;
+        for _ in 0..8 {
+            if let Some(t) = gen_val_for(g, key).cast(ty) {
+                found = Some(t);
+                break;
+            }
+        }
+        found
+    };
+    FLeaf::Pull(key.to_string(), ty, want)
+}
+
 fn gen_fleaf(g: &mut Rng) -> FLeaf {
     // leaves that decide on ambient-only properties, and stateful ones
     match g.below(100) {
@@ -126,6 +188,7 @@ fn gen_fleaf(g: &mut Rng) -> FLeaf {
         14..=17 => return FLeaf::FirstEq(g.pick(&AMB_KEYS).to_string(), gen_val(g).text()),
         18..=20 => return FLeaf::LacksKey(gen_key(g)),
         21..=28 => return FLeaf::Budget(g.below(40)),
+        29..=52 => return gen_typed_leaf(g),
         _ => {}
     }
     match g.below(100) {
@@ -173,7 +236,11 @@ fn gen_wrap_kind(g: &mut Rng) -> WrapKind {
         0..=1 => WrapKind::Pass,
         2 => WrapKind::Drop,
         3 => WrapKind::Twice,
-        4..=5 => WrapKind::AddProp(gen_key(g), gen_val(g)),
+        4..=5 => {
+            let k = gen_key(g);
+            let v = gen_val_for(g, &k);
+            WrapKind::AddProp(k, v)
+        }
         _ => WrapKind::StripExtent,
     }
 }
@@ -353,6 +420,9 @@ struct Case {
     kind: CtxtKind,
     events: Vec<(MEvent, Option<u64>)>,
     flush_timeout: Duration,
+    /// a statically typed (non-erased) filter over table leaves: shape and leaf indices
+    typed_shape: u64,
+    typed_leaves: [usize; 3],
 }
 
 fn gen_case(seed: u64, index: u64) -> Case {
@@ -383,7 +453,9 @@ fn gen_case(seed: u64, index: u64) -> Case {
     let k = if small { 2 } else { 6 };
     let events = (0..k).map(|_| (gen_event(&mut g), gen_clock(&mut g))).collect();
     let flush_timeout = Duration::from_millis(g.below(10_000));
-    Case { seed, index, cx, f, w, d, ambient, kind, events, flush_timeout }
+    let typed_shape = g.below(3);
+    let typed_leaves = [g.usize(N_FLEAVES), g.usize(N_FLEAVES), g.usize(N_FLEAVES)];
+    Case { seed, index, cx, f, w, d, ambient, kind, events, flush_timeout, typed_shape, typed_leaves }
 }
 
 impl Case {
@@ -679,6 +751,8 @@ where
             }
             r.observe("short-circuit:and-right-side-skipped", exp.and_right_skipped);
             r.observe("short-circuit:or-right-side-skipped", exp.or_right_skipped);
+            r.observe("typed-leaf:evaluations", exp.typed_evals);
+            r.observe("typed-leaf:first-value-fails-cast-later-duplicate-would-pass", exp.typed_first_fails_later_casts);
             r.observe("stateful-leaf:evaluations", exp.stateful_evals);
             r.observe("stateful-leaf:evaluations-after-budget-spent", exp.stateful_exhausted);
             case.d.filter_trees(&mut judged_trees);
@@ -694,6 +768,17 @@ where
                     r.violation("C01:bypass:direct-emit-read-the-context", "direct Emitter::emit consulted the ambient context", case.json(path, Some(ei)));
                 }
             }
+        }
+    }
+
+    // ---- the same destinations behind statically typed (non-erased) filters: as the runtime
+    // filter of a typed Runtime and as a call-site `when:`
+    {
+        let [i, j, k] = case.typed_leaves;
+        match case.typed_shape {
+            0 => drive_typed(r, case, fl(cx, i), &rt, &clk, ambient),
+            1 => drive_typed(r, case, f_or(fl(cx, i), fand(fl(cx, j), fl(cx, k))), &rt, &clk, ambient),
+            _ => drive_typed(r, case, fand(fsome(fbox(farc(fl(cx, i)))), f_or(ffn(cx, j), fl(cx, k))), &rt, &clk, ambient),
         }
     }
 
@@ -741,6 +826,80 @@ where
     r.observe("effective-filter:rejects", rejects);
     if r.wants_sample() && case.index < 3 {
         r.sample(|| json!({"filter": shape, "ctxt": format!("{:?}", case.kind), "ambient": format!("{:?}", case.ambient), "first_event": format!("{:?}", case.events[0]), "accepts": accepts, "rejects": rejects, "deliveries": delivered}));
+    }
+}
+
+/// The case's events through a statically typed filter `fp` in generic positions: the filter of a
+/// typed `Runtime` (plain emit and an `emit!` call site) and a call-site `when:` over the case's
+/// runtime. The leaf then sees the concatenated own ++ ambient props with their concrete types, so
+/// typed lookups (`pull`) take the non-erased route.
+fn drive_typed<F, E, RF, C>(r: &mut Report, case: &Case, fp: FP<F>, rt: &Runtime<E, RF, C, Clk, Empty>, clk: &Clk, ambient: &MProps)
+where
+    F: Filter,
+    E: Emitter,
+    RF: Filter,
+    C: Ctxt,
+{
+    let cx = &case.cx;
+    let log = cx.log.clone();
+    let typed_rt = Runtime::build(rt.emitter(), &fp.real, rt.ctxt(), rt.clock(), Empty);
+    let mut trees: Vec<&FTree> = vec![&fp.model];
+    case.d.filter_trees(&mut trees);
+    for (ei, (raw, clock)) in case.events.iter().enumerate() {
+        clk.set(*clock);
+        let n_site = 4i64;
+        for path in ["typed-runtime-emit", "typed-runtime-macro-site", "typed-when"] {
+            r.eval();
+            r.observe(&format!("path:{}", path), 1);
+            log.clear();
+            let handed = if path == "typed-runtime-macro-site" {
+                let mut ev = raw.clone();
+                ev.tpl = vec![TPart::Text("site zero ".into()), TPart::Hole("n".into())];
+                ev.props.insert(0, ("n".to_string(), MVal::I(n_site)));
+                ev
+            } else {
+                raw.clone()
+            };
+            let built = handed.built(ambient, *clock);
+            let mut exp = Expect::default();
+            let accepted = feval(&fp.model, cx, &built, &mut exp);
+            if accepted {
+                deliver(&case.d, cx, &built, &mut exp);
+            }
+            r.observe(if accepted { "typed-position:accepts" } else { "typed-position:rejects" }, 1);
+            r.observe("typed-position:typed-leaf-evaluations", exp.typed_evals);
+            r.observe("typed-position:first-value-fails-cast-later-duplicate-would-pass", exp.typed_first_fails_later_casts);
+            let ran = catch(|| {
+                raw.with_real(|evt| match path {
+                    "typed-runtime-emit" => typed_rt.emit(evt),
+                    "typed-runtime-macro-site" => {
+                        let n = n_site;
+                        let mdl = Path::new_ref_raw(&raw.mdl);
+                        let ext = raw.ext.real();
+                        let base = &raw.props[..];
+                        emit::emit!(rt: &typed_rt, mdl: mdl, extent: ext, props: base, "site zero {n}")
+                    }
+                    _ => emit::emit!(rt: rt, evt: evt, when: &fp.real),
+                });
+                log.deliveries.lock().unwrap().clone()
+            });
+            match ran {
+                Err(m) => r.violation(&format!("C01:panic:{}", path), &format!("emitting through {} panicked: {}", path, m), case.json(path, Some(ei))),
+                Ok(d) => {
+                    r.observe("leaf-deliveries", d.len() as u64);
+                    if let Some((class, detail)) = compare_deliveries(&d, &exp.deliveries) {
+                        r.violation(
+                            &format!("C01:delivery:{}:effective-filter-{}:{}", path, if accepted { "accepts" } else { "rejects" }, class),
+                            &format!("typed filter {:?}: {}", fp.model, detail),
+                            case.json(path, Some(ei)),
+                        );
+                    } else if let Some((class, detail)) = check_evaluations(&log, cx, &exp.evals, &trees, &built) {
+                        r.violation(&format!("C01:filter:{}:{}", class, path), &format!("typed filter {:?}: {}", fp.model, detail), case.json(path, Some(ei)));
+                    }
+                }
+            }
+            cx.resync();
+        }
     }
 }
 
@@ -878,15 +1037,28 @@ where
         // the whole pipeline: generic components, erased components, a generic Runtime
         let mut all_trees: Vec<&FTree> = vec![&fm];
         em.filter_trees(&mut all_trees);
-        for view in ["generic-components", "erased-components", "generic-runtime", "every-node-erased"] {
+        let n_site = 4i64;
+        for view in ["generic-components", "erased-components", "generic-runtime", "every-node-erased", "generic-when", "generic-runtime-macro-site", "generic-runtime-as-emitter"] {
             run.r.eval();
             log.clear();
+            // what is handed to the pipeline on this view
+            let handed = if view == "generic-runtime-macro-site" {
+                let mut ev = raw.clone();
+                ev.tpl = vec![TPart::Text("site zero ".into()), TPart::Hole("n".into())];
+                ev.props.insert(0, ("n".to_string(), MVal::I(n_site)));
+                ev
+            } else {
+                raw.clone()
+            };
+            let built = handed.built(&run.ambient, clock);
             let mut exp = Expect::default();
-            let accepted = feval(&fm, cx, &full, &mut exp);
+            let accepted = feval(&fm, cx, &built, &mut exp);
             if accepted {
-                deliver(&em, cx, &full, &mut exp);
+                deliver(&em, cx, &built, &mut exp);
             }
             if accepted { accepts += 1 } else { rejects += 1 }
+            run.r.observe("static:typed-leaf-evaluations", exp.typed_evals);
+            run.r.observe("static:typed-leaf:first-value-fails-cast-later-duplicate-would-pass", exp.typed_first_fails_later_casts);
             let got = catch(|| {
                 raw.with_real(|evt| match view {
                     "generic-components" => emit_core::emit(&*e, &*f, &ctxt, &clk, evt),
@@ -898,6 +1070,20 @@ where
                         evt,
                     ),
                     "generic-runtime" => Runtime::build(&*e, &*f, &ctxt, &clk, Empty).emit(evt),
+                    "generic-runtime-as-emitter" => Emitter::emit(&Runtime::build(&*e, &*f, &ctxt, &clk, Empty), evt),
+                    // the typed filter as a call-site `when:` over a typed runtime whose own filter rejects everything
+                    "generic-when" => {
+                        let rt = Runtime::build(&*e, emit::filter::from_fn(|_| false), &ctxt, &clk, Empty);
+                        emit::emit!(rt: &rt, evt: evt, when: &*f)
+                    }
+                    "generic-runtime-macro-site" => {
+                        let rt = Runtime::build(&*e, &*f, &ctxt, &clk, Empty);
+                        let n = n_site;
+                        let mdl = Path::new_ref_raw(&raw.mdl);
+                        let ext = raw.ext.real();
+                        let base = &raw.props[..];
+                        emit::emit!(rt: &rt, mdl: mdl, extent: ext, props: base, "site zero {n}")
+                    }
                     _ => emit_core::emit(&e_all, &f_all, &ctxt, &clk, evt),
                 });
                 log.deliveries.lock().unwrap().clone()
@@ -912,7 +1098,7 @@ where
                             &format!("static shape {}: {}", run.name, detail),
                             run.json("pipeline", view, Some(ei), &fm, &em, cx),
                         );
-                    } else if let Some((class, detail)) = check_evaluations(&log, cx, &exp.evals, &all_trees, &full) {
+                    } else if let Some((class, detail)) = check_evaluations(&log, cx, &exp.evals, &all_trees, &built) {
                         run.r.violation(&format!("C01:filter:{}:static-pipeline:{}", class, view), &format!("static shape {}: {}", run.name, detail), run.json("pipeline", view, Some(ei), &fm, &em, cx));
                     }
                 }
@@ -1073,7 +1259,7 @@ fn main() {
         let per_run = args.get_u64("shapes", 3);
         (args.get_u64("cases", 2), per_run, (seed % ((shapes + per_run - 1) / per_run)) * per_run)
     } else {
-        (args.n(25_000, 600_000), args.n(shapes * 250, shapes * 5_000), 0)
+        (args.n(25_000, 600_000), args.n(shapes * 350, shapes * 5_000), 0)
     };
     par_cases(&mut r, &args, n_dyn, |i, r| dyn_case(r, seed, i));
     par_cases(&mut r, &args, n_static, |i, r| static_case(r, seed, static_from + i));
